@@ -290,7 +290,9 @@ vorbis_look_residue *res0_look(vorbis_dsp_state *vd,
   for(j=0;j<dim;j++)
       look->partvals*=look->parts;
 
-  look->stages=maxstage;
+  /* the classification codewords are part of the packet even when no
+     class has any stage book, so the first pass always runs */
+  look->stages=(maxstage>0?maxstage:1);
   look->decodemap=_ogg_malloc(look->partvals*sizeof(*look->decodemap));
   for(j=0;j<look->partvals;j++){
     long val=j;
